@@ -629,7 +629,7 @@ class Gen:
             for b, _ in bases:
                 bc = self.classes[b]
                 for bm in bc["methods"]:
-                    if bm.get("virtual") and bm["kind"] == "method" and not bm.get("overload_set") and r.random() < 0.35 \
+                    if bm.get("virtual") and bm["kind"] == "method" and not bm.get("overload_set") and r.random() < 0.7 \
                             and bm["name"] not in [m["name"] for m in cls["methods"]] and not bm["name"].startswith("operator"):
                         ps = [dict(p, default=None, default_value=None) for p in bm["params"]]
                         f = self.gen_function(cls, "method", name=bm["name"], ret=bm["ret"], params=ps,
